@@ -85,7 +85,9 @@ theorem step_noReparse (lvl : Int) (app : App) (s s' : St) (h : idleStep lvl app
     · exact noReparse_of_flags s _ j0 rfl rfl rfl (by simp)
     · exact ⟨fun _ => rfl, Or.inl rfl, by simp⟩
     · refine noReparse_of_flags s _ j0 rfl rfl rfl ?_
-      simp only; split <;> simp
+      simp only; repeat' split
+      all_goals simp
+  · cases h; exact noReparse_of_flags s _ j0 rfl rfl rfl (by simp)
   · -- bodyReceiving
     rename_i hs
     split at h
@@ -189,6 +191,7 @@ theorem step_past (lvl : Int) (app : App) (s s' : St) (h : idleStep lvl app s = 
   · rename_i hs; exact absurd hs p1
   · rename_i hs; exact absurd hs p2
   · rename_i hs; exact absurd hs p3
+  · cases h; exact ⟨⟨by simp, by simp, by simp⟩, rfl⟩
   · rename_i hs
     split at h
     · cases h; exact ⟨⟨by simp, by simp, by simp⟩, rfl⟩
@@ -285,6 +288,7 @@ theorem step_flagsWF (lvl : Int) (app : App) (s s' : St) (h : idleStep lvl app s
     · exact flagsWF_of s _ wf (Or.inl rfl) rfl
     · exact flagsWF_of s _ wf (Or.inr rfl) rfl
     · exact flagsWF_of s _ wf (Or.inl rfl) rfl
+  · cases h; exact flagsWF_of s _ wf (Or.inl rfl) rfl
   · split at h
     · cases h; exact flagsWF_of s _ wf (Or.inl rfl) rfl
     · unfold bodyStep at h
